@@ -15,7 +15,7 @@
    in a child process), and the accept / reject classification of .avbc inputs is compared
    with this model's `read` on every run. *)
 From Aelys Require Import Base.Tactics Extracted.ValueConsts Extracted.AvbcLayout
-  Model.Value Model.Avbc Proofs.AvbcProofs Proofs.AvbcBounds.
+  Model.Value Model.Avbc Proofs.AvbcProofs Proofs.AvbcBounds Model.AasmLex Proofs.AasmLexProofs Model.AasmTree Proofs.AasmTreeProofs.
 Local Open Scope N_scope.
 
 (* total capacity requested (Vec::with_capacity and vec![0; n], in bytes, with the nominal
@@ -42,7 +42,7 @@ Proof. exact depth_guard_lemma. Qed.
 
 (* ... so whatever is accepted nests at most MAX_NESTING_DEPTH = 64 deep (65 frames) ... *)
 Theorem C07_nesting_bounded : forall (dbg : bool) (bs : list N) (f : func),
-  read dbg bs = ROk f -> height f <= 64.
+  read dbg bs = ROk f -> Avbc.height f <= 64.
 Proof. exact nesting_bounded_lemma. Qed.
 
 (* ... and the model's fuel (depth limit + 2) never runs out: `read` is a faithful total
@@ -56,3 +56,34 @@ Example C07_nonvacuous :
   lenN greedy_input = 26 /\ read true greedy_input = RErr EEof
   /\ read_alloc true greedy_input = 4000000 /\ read_max_request true greedy_input = 4000000.
 Proof. exact greedy_input_facts. Qed.
+
+(* ---- assembly text: the .aasm lexer (bytecode/src/asm/lexer.rs, modelled in Model/AasmLex.v and tied
+   token by token through the hook asm::verif_tokens) ------------------------------------------------
+   every token other than Eof consumes at least one character: the measure that makes the
+   assembler's token loop terminate ... *)
+Theorem C07_aasm_lexer_progress : forall (cs : list N) (t : atok) (r : list N),
+  next_token cs = Some (t, r) -> t <> AEof -> (length r < length cs)%nat.
+Proof. exact next_token_progress. Qed.
+
+(* ... so lexing any input ends (the model's fuel |input|+1 is never exhausted) in a lexical error or
+   in at most |input|+1 tokens: the token stream cannot be larger than the input *)
+Theorem C07_aasm_lexer_total : forall cs : list N,
+  match lex cs with
+  | (Some ts, b) => b = true /\ (length ts <= length cs + 1)%nat
+  | (None, b) => b = true
+  end.
+Proof. exact lex_total. Qed.
+
+Example C07_aasm_lexer_nonvacuous :
+  lex [46; 99; 111; 100; 101; 10; 32; 48; 48; 58; 32; 77; 32; 114; 49; 44; 32; 45; 53; 32; 59; 32; 120; 10; 76; 48; 58]
+  = (Some [ADir [99; 111; 100; 101]; ANl; AInt 0; AColon; AId [77]; AReg 1; AComma; AInt (-5)%Z; ANl; ALab [76; 48]; AColon; AEof], true)
+  /\ lex [34; 97] = (None, true) /\ lex [114; 57; 57; 57] = (None, true) /\ lex [49; 46; 53; 101; 45; 51] = (Some [AFlt; AEof], true).
+Proof. exact lex_examples. Qed.
+
+(* the assembler's tree rebuild refuses chains deeper than 64 instead of building them (632c031):
+   the recursive consumers after it (loader, verifier, drop) never see a deeper tree *)
+Example C07_aasm_nesting_refused :
+  rebuild (flatten (chain 64)) = Some (Some (chain 64)) /\ rebuild (flatten (chain 65)) = None
+  /\ rebuild (flatten (chain 2000)) = None
+  /\ rebuild [(1, 2); (2, 0); (3, 1); (4, 0)]%nat = Some (Some (Node 1 [Node 2 []; Node 3 [Node 4 []]]))%nat.
+Proof. exact rebuild_examples. Qed.
